@@ -68,6 +68,7 @@ def run(chk, rules=None, as_prop=None):
     chk.rule("G6", "check_subquery: alias search, stop set, re-test, SubqueryError; assertions hold for every caller")
     chk.rule("G8", "the function type (element-wise / aggregate / window) of a composite expression accounts for every child: no child's ftype() is computed and discarded inside an ftype method")
     chk.rule("G6r", "check_subquery: every return of a rebuilt chain passes through a requires_subquery re-test (must-pass-through)")
+    chk.rule("G9", "typestate model check: Cache.update / Cache.requires_subquery interpreted on every verb sequence up to the bound agree with the reference automaton of one SQL SELECT (hazards refused, the never-needs-a-subquery class accepted, a subquery makes the verb fit, Polars never asks)")
     chk.rule("G7", "SqlImpl.compile_ast materialises SubqueryMarker as a subquery and restarts the query state")
 
     cache = repo.mod("pipe.cache")
@@ -141,11 +142,18 @@ def run(chk, rules=None, as_prop=None):
             for t in st.targets:
                 if isinstance(t, ast.Attribute) and norm(t.value) == res:
                     reset[t.attr] = norm(st.value)
-    want = {"limit": "0", "group_by": "set()", "is_filtered": "False"}
-    for f, val in want.items():
-        chk.ob("G2", cfg_cache.module, cfg_cache.func, f"SubqueryMarker resets cache.{f}", reset.get(f) == val,
-               f"after a subquery marker the cache keeps `{f}` = {reset.get(f)!r}: verbs after the subquery would be refused (or "
-               "accepted) according to the state of the inner SELECT")  # fmt: skip
+    # a subquery starts a fresh SELECT: the clause-state fields get the value a fresh source table has (Cache.from_ast)
+    fresh = {}
+    fa = cache.func("Cache.from_ast")
+    for c_ in ast.walk(fa):
+        if isinstance(c_, ast.Call) and isinstance(c_.func, ast.Name) and c_.func.id == "Cache" and c_.keywords:
+            fresh = {k.arg: norm(k.value) for k in c_.keywords}
+    state_fields = sorted(set(MIRRORS.values()) | {f for f in fresh if f.startswith("is_")})
+    for f in state_fields:
+        val = fresh.get(f)
+        chk.ob("G2", cfg_cache.module, cfg_cache.func, f"SubqueryMarker resets cache.{f} to its fresh value {val}", val is not None and reset.get(f) == val,
+               f"after a subquery marker the cache keeps `{f}` = {reset.get(f)!r} (a fresh table has {val!r}): verbs after the subquery would be refused "
+               "(or accepted) according to the state of the inner SELECT")  # fmt: skip
     # the marker makes every column a plain element-wise column of the subquery
     chk.ob("G2", cfg_cache.module, cfg_cache.func, "SubqueryMarker re-types columns as ELEMENT_WISE", "ELEMENT_WISE" in reset.get("cols", ""),
            "columns keep their window / aggregate function type across a subquery marker")  # fmt: skip
@@ -167,6 +175,14 @@ def run(chk, rules=None, as_prop=None):
                "aggregate function in that child (e.g. a case condition) leaves the expression ELEMENT_WISE, the cache does not know the column "
                "is a window column and no subquery guard fires (WHERE on a window function in SQL)")  # fmt: skip
     chk.floor("G8", "composite expression classes with own ftype()", n8, 2)
+
+    # ---- G9 typestate exploration (cachesim)
+    from .. import cachesim
+
+    judged = cachesim.report(chk, m, "G9", "C08", "guards vs reference automaton")
+    if judged:
+        chk.floor("G9", "judged (cache state, verb) pairs", judged, 3000)
+    chk.trusted.append("cachesim.Ref: reference automaton of the clauses of one SQL SELECT (evaluation order FROM/JOIN, WHERE, GROUP BY, HAVING, window, ORDER BY, LIMIT)")
 
     # ---- G4 builders
     _builders(chk, sym)
